@@ -1129,6 +1129,69 @@ pub fn run<'tcx>(tcx: TyCtxt<'tcx>) {
             }
         }
     }
+    // the k-mer iterators over sequence containers: every method of `impl Iterator for KmerIter / KmerExtsIter` (next and any
+    // overridden provided method), for every container x a spread of k-mer types
+    if let Some(t_iter) = tcx.get_diagnostic_item(rustc_span::sym::Iterator) {
+        let mut kpick: Vec<Ty<'tcx>> = Vec::new();
+        for (kt, _) in ktypes.iter() {
+            let sname = tystr(*kt);
+            if sname.contains("K3>") || sname == "kmer::IntKmer<u8>" || sname == "kmer::IntKmer<u64>" || sname.contains("K48>") || thorough {
+                kpick.push(*kt);
+            }
+        }
+        for iname in ["KmerIter", "KmerExtsIter"] {
+            if let Some(idid) = find_adt(iname) {
+                let g = tcx.generics_of(idid);
+                if g.count() != 3 {
+                    continue;
+                }
+                // the impl's own (overridden) methods
+                let mut meths: Vec<DefId> = Vec::new();
+                for imp in tcx.all_impls(t_iter) {
+                    if !imp.is_local() {
+                        continue;
+                    }
+                    let st = tcx.type_of(imp).instantiate_identity().skip_norm_wip();
+                    if let ty::Adt(ad, _) = st.kind() {
+                        if ad.did() == idid {
+                            for it in tcx.associated_items(imp).in_definition_order() {
+                                if it.is_fn() {
+                                    if let Some(tm_) = it.trait_item_def_id() {
+                                        meths.push(tm_);
+                                    }
+                                }
+                            }
+                        }
+                    }
+                }
+                for c in containers.clone().iter() {
+                    for kt in kpick.iter() {
+                        let selfty = Ty::new_adt(
+                            tcx,
+                            tcx.adt_def(idid),
+                            tcx.mk_args(&[GenericArg::from(tcx.lifetimes.re_erased), GenericArg::from(*kt), GenericArg::from(*c)]),
+                        );
+                        for m in meths.iter() {
+                            if tcx.generics_of(*m).count() != 1 {
+                                continue;
+                            }
+                            let args = tcx.mk_args(&[GenericArg::from(selfty)]);
+                            let r = std::panic::catch_unwind(std::panic::AssertUnwindSafe(|| {
+                                Instance::try_resolve(tcx, env_mono, *m, args).ok().flatten()
+                            }));
+                            if let Ok(Some(inst)) = r {
+                                let meta = J::obj()
+                                    .with("trait", J::s("Iterator"))
+                                    .with("method", J::s(tcx.item_name(*m).to_string()))
+                                    .with("self", J::s(tystr(selfty)));
+                                roots.push((inst, meta));
+                            }
+                        }
+                    }
+                }
+            }
+        }
+    }
     // free generic fns with exactly one type parameter bounded by Kmer (e.g. filter::bucket)
     for ldid in tcx.hir_body_owners() {
         let did = ldid.to_def_id();
